@@ -358,12 +358,12 @@ def tr_fill_safe():
     sch = _import("stepup.core.scheduler")
     sql = norm(_const(sch, "FILL_SAFE_UPDATE"))
     m = re.fullmatch(
-        r"INSERT INTO safe_update\(i, safe, safe_nh\) WITH RECURSIVE trace\(i, safe, chain, safe_nh, chain_nh\) AS \("
+        r"INSERT INTO safe_update\(i, safe, safe_nh\) WITH RECURSIVE trace\(i, safe, chain, safe_nh, chain_nh, depth\) AS \("
         r"SELECT s\.node, (.*) FROM step AS s JOIN node AS cnode ON cnode\.i = s\.node "
         r"LEFT JOIN step AS creator_step ON creator_step\.node = cnode\.creator WHERE s\._check_safe "
         r"UNION ALL SELECT sp\.node, (.*) FROM trace JOIN node AS product ON product\.creator = trace\.i "
         r"JOIN step AS sp ON sp\.node = product\.i\) "
-        r"SELECT i, MIN\(safe\), MIN\(safe_nh\) FROM trace GROUP BY i", sql)
+        r"SELECT i, safe, safe_nh FROM \(SELECT i, safe, safe_nh, MAX\(depth\) FROM trace GROUP BY i\)", sql)
     if not m:
         raise TranslatorError("FILL_SAFE_UPDATE: statement shape not recognised")
 
@@ -384,8 +384,12 @@ def tr_fill_safe():
 
     seed = split_top(m.group(1))
     rec = split_top(m.group(2))
-    if len(seed) != 4 or len(rec) != 4:
-        raise TranslatorError("FILL_SAFE_UPDATE: expected four value columns in both arms")
+    if len(seed) != 5 or len(rec) != 5:
+        raise TranslatorError("FILL_SAFE_UPDATE: expected four value columns and the depth in both arms")
+    # duplicates per step are resolved by taking the row seeded at the topmost flagged ancestor
+    if seed[4] != "0" or rec[4] != "trace.depth + 1":
+        raise TranslatorError("FILL_SAFE_UPDATE: depth column is not 0 / trace.depth + 1")
+    seed, rec = seed[:4], rec[:4]
     scols = {
         "creator_step._safe": ("csafe", "bool"), "creator_step._safe_ignoring_hold": ("csafe_nh", "bool"),
         "creator_step.state": ("cstate", "N"), "creator_step._holding": ("chold", "N"),
@@ -409,6 +413,8 @@ def tr_fill_safe():
                      "_safe_ignoring_hold = (SELECT safe_nh FROM safe_update WHERE safe_update.i = step.node) "
                      "WHERE step.node IN (SELECT i FROM safe_update)"):
         raise TranslatorError("APPLY_SAFE_UPDATE: statement changed")
+    out.append("(* duplicate trace rows of one step: the row of MAX(depth), i.e. the one seeded at the topmost flagged ancestor *)")
+    out.append("Definition safe_merge_deepest : bool := true.")
     return out
 
 
